@@ -3,13 +3,14 @@
     Input table: as [Model/EntryPipe.v] (row 0 = configuration, then "N" / "C" /
     "T" rows); two more configuration fields:
       17 detect_minimal_iri ("1"/"0") | 18 examples_mode ("N" = None, "S<mode>").
-    Output: [["ok"; text; dom]] ([dom] = [run_decor_domb], the computable domain
+    Output: [["ok"; text; dom]] ([dom] = [run_decor_domb_cur], [RunDecor]'s functions with the
+    shexing stage in the order the code has: [Model/RunDecorCur.v]; the computable domain
     of the strip theorem of Props/C17.v) or [["err"; exception name]].
     Entry [pipe_decor_info]: [["1"]] / [["0"]] = [c_example_none_guard]. *)
 From Coq Require Import List Ascii String ZArith NArith Bool.
 From Shexer Require Import Lib.PyStr Lib.Dict Gen.Consts Spec.Rdf Model.Table Model.Tracker Model.Profiler
      Model.Tokens Model.Freq Model.FreqInst Model.Shexing Model.SerialShexc Model.Run Model.EntryPipe
-     Model.MinIri Model.Examples Model.RunDecor Model.DecorDom.
+     Model.MinIri Model.Examples Model.RunDecor Model.DecorDom Model.RunCur Model.RunDecorCur.
 Import ListNotations.
 
 Definition derr_str (e : derr) : str :=
@@ -22,9 +23,9 @@ Definition dmi_of (t : table) : bool := fbool (nth 0 t []) 17.
 Definition exmode_of (t : table) : option str := fopt (nth 0 t []) 18.
 
 Definition pipe_shexc_decor (t : table) : table :=
-  match run_shexc_decor BAlg (rcfg_of t) (dmi_of t) (exmode_of t) (thr_of t) (graph_of t) with
+  match run_shexc_decor_cur BAlg (rcfg_of t) (dmi_of t) (exmode_of t) (thr_of t) (graph_of t) with
   | inl text => [[Str "ok"; text;
-                  bstr (run_decor_domb BAlg (rcfg_of t) (dmi_of t) (exmode_of t) (thr_of t) (graph_of t))]]
+                  bstr (run_decor_domb_cur BAlg (rcfg_of t) (dmi_of t) (exmode_of t) (thr_of t) (graph_of t))]]
   | inr e => [[Str "err"; derr_str e]]
   end.
 
